@@ -129,7 +129,7 @@ PROPS = {
     "C14": {
         "module": "BiscuitModel.Props.C14Terms",
         "more_modules": ["BiscuitModel.Props.C14"],
-        "streams": ["print", "termparse"],
+        "streams": ["print", "termparse", "exprparse"],
         "level_text": "Lean 4 theorems about an executable model of both printer families (Model/Printer) and of the term / fact parser (Model/TermParser: fact_inner, name, term_in_fact, term_in_set, parameter, string, date, integer, bytes, boolean, null, array, parse_map, map_key, set, with nom's alt / cut / separated_list / multispace0 written out and the two error classes Error / Failure kept apart): fact_round_trip (for EVERY fact the grammar derives - valid names, 64-bit integers, any strings, non-empty byte strings, homogeneous sets, arrays, maps, parameters, nested to any depth, the one ambiguous printed form {true} / {null} / {hex:..} excluded - and EVERY text that follows it, the parser model run on the printed fact returns exactly that fact and leaves exactly that text; by mutual structural induction over the term, with the fuel the driver uses proved sufficient: needT_le / needL_le), printPred_eq_predC (the character-level printer of that theorem is the printer model compared with Display), and the lexeme theorems it is built from: string_lit_round_trip (for EVERY string - quotes, backslashes, newlines, any scalar value - and every continuation of the text, the string parser reads the printed literal back as exactly that string and stops right after its closing quote: no string value can make printed text parse as different code), hex_round_trip and int_round_trip (the same for every non-empty byte string and every 64-bit integer, given that the next character is not a digit of that literal), postfix_print_infix / printExpr_opcodes (Expression::print, a stack machine over postfix ops with nested closure bodies, renders the op list of ANY expression tree as that tree's infix text, so the only parentheses printed are the explicit Parens nodes), and singleton_set_prints_as_parameter (the printer is not injective: the witness of the known finding). Tie: stream print - facts, rules, checks, policies, block sources and authorizer dumps generated over every term type, nested collections, every operator and method, closures, scopes with both key algorithms, strings over the full scalar range; the model's text is compared with Display of the builder item, with Biscuit::print_block_source (SymbolTable printers) and with the BlockBuilder Display; an implementation-only oracle requires that the real parser accepts the printed text and returns a structurally identical item (for blocks: identical serialized block after print_block_source -> BlockBuilder::code -> build; for authorizers: identical snapshot after dump_code -> AuthorizerBuilder::code). A third of the expression-bearing items are the parser's own output on text printed with parentheses left out at random, i.e. ASTs the grammar derives by construction.",
         "level_note": "Partial: for facts and all terms the inverse direction is a theorem (fact_round_trip) about the parser model that the termparse stream runs against the real fact_inner on printed, re-spaced, mutated and random text (result, rest of input and nom error class must agree); for expressions, rule bodies, checks and policies (the operator-precedence layers expr..expr9) it is not a theorem and is decided per generated item by running the real parser (oracle). RFC 3339 parsing is the time crate: a parameter of the model, supplied per case by the harness calling time directly; the theorem assumes that it accepts only tokens shaped YYYY-... (checked on every table) and that it reads each printed date of the term back (dateOK, part of the well-formedness check). Sets and maps are compared as sets / maps (BTreeSet / BTreeMap collection is not modelled). Dates are printed by an executable RFC 3339 formatter in the model that is validated by the stream only. Items that contain unbound {parameters} are outside this property's stream (C20).",
         "rule": "print stream: corpus (fixed findings and the known one) first, then seeded items; non-trivial = the item contains a quote or backslash inside a string, an operator, a map, or a scope; termparse stream: printed facts (with a tail), re-spaced, 1-3 character mutations of printed facts, token soup; non-trivial = the text contains a bracket or brace; distinct = distinct case JSON",
@@ -987,7 +987,36 @@ def cmp_termparse(case, impl, model):
     return None
 
 
-COMPARATORS = {"termparse": cmp_termparse, "capi": cmp_capi, "macros": cmp_macros, "untrusted": cmp_untrusted, "keys": cmp_keys, "params": cmp_params, "print": cmp_print, "snapshot": cmp_snapshot, "symbols": cmp_symbols, "versions": cmp_versions, "chain": cmp_chain, "limits": cmp_limits, "expr": cmp_default, "engine": cmp_engine, "authz": cmp_authz, "atten": cmp_atten, "determ": cmp_determ}
+def cmp_exprparse(case, impl, model):
+    """the expression parser model against biscuit_parser::parser::expr: same tree (sets and maps compared as such),
+    same rest, same error class"""
+    if "driver_error" in model:
+        return "driver error: %s" % model["driver_error"]
+    if "panic" in impl:
+        return "expr panicked: %s" % impl["panic"][:200]
+    for tok, _ in case.get("dates", []):
+        if not (len(tok) > 4 and tok[0].isdigit() and tok[0].isascii() and tok[4] == "-"):
+            return "the RFC 3339 parser accepted a token outside the assumed shape: %r" % tok
+    def ct(t):
+        if isinstance(t, dict):
+            if "set" in t and isinstance(t["set"], list):
+                u = {json.dumps(x, sort_keys=True): x for x in (ct(x) for x in t["set"])}
+                return {"set": [u[k] for k in sorted(u)]}
+            if "map" in t and isinstance(t["map"], list):
+                u = {}
+                for k, v in t["map"]:
+                    u[json.dumps(k, sort_keys=True)] = [k, ct(v)]
+                return {"map": [u[k] for k in sorted(u)]}
+            return {k: ct(v) for k, v in t.items()}
+        if isinstance(t, list):
+            return [ct(x) for x in t]
+        return t
+    if ct(impl) != ct(model):
+        return "expr and the parser model differ on %r: %s vs %s" % (case["text"][:200], json.dumps(impl)[:300], json.dumps(model)[:300])
+    return None
+
+
+COMPARATORS = {"exprparse": cmp_exprparse, "termparse": cmp_termparse, "capi": cmp_capi, "macros": cmp_macros, "untrusted": cmp_untrusted, "keys": cmp_keys, "params": cmp_params, "print": cmp_print, "snapshot": cmp_snapshot, "symbols": cmp_symbols, "versions": cmp_versions, "chain": cmp_chain, "limits": cmp_limits, "expr": cmp_default, "engine": cmp_engine, "authz": cmp_authz, "atten": cmp_atten, "determ": cmp_determ}
 
 
 def nontrivial(stream, case, impl):
@@ -1021,6 +1050,8 @@ def nontrivial(stream, case, impl):
         return len(case["binds"]) >= 1 and '"param"' in json.dumps(case["item"])
     if stream == "termparse":
         return any(c in case["text"] for c in "[{")
+    if stream == "exprparse":
+        return any(c in case["text"] for c in "(.|&<>=+-*/!")
     if stream == "print":
         t = json.dumps(case["item"])
         return '\\"' in t or '\\\\' in t or '"bin"' in t or '"map"' in t or '"scopes": [{' in t
@@ -1169,7 +1200,7 @@ def signature(d):
             return "err:" + str(o["err"])
         if "panic" in o:
             return "panic"
-        if d["stream"] == "termparse":
+        if d["stream"] in ("termparse", "exprparse"):
             return "r:" + str(o.get("r"))
         return ",".join(sorted(o.keys()))
     return (d["stream"], cls(d["impl"]), cls(d["model"]), d.get("why", "")[:40])
@@ -1314,6 +1345,8 @@ def fingerprint(why):
     import re
     if why.startswith("fact_inner and the parser model differ"):
         return "fact_inner and the parser model differ"
+    if why.startswith("expr and the parser model differ"):
+        return "expr and the parser model differ"
     w = re.sub(r'input: \\?"(?:[^"\\]|\\.)*\\?"', 'input', why)
     w = re.sub(r"\(text .*$", "", w, flags=re.S)
     w = re.sub(r"[0-9a-f]{8,}|\d+", "_", w)
@@ -1325,17 +1358,17 @@ def shrink(d, rerun, budget=60, pid=None):
     same way (same signature: stream, outcome classes, beginning of the reason) on a fresh run of both sides"""
     best = d
     want = (signature(d), fingerprint(d["why"]))
-    if d["stream"] == "termparse":
+    if d["stream"] in ("termparse", "exprparse"):
         # delta debugging on the text: chunks of halving size are cut out while the two sides still differ
         text = best["case"]["text"]
         chunk = max(1, len(text) // 2)
         while chunk >= 1 and budget > 0:
             i, cut = 0, False
             while i < len(text) and budget > 0:
-                cand = {"op": "termparse", "gen": "shrunk", "text": text[:i] + text[i + chunk:], "dates": []}
+                cand = {"op": d["stream"], "gen": "shrunk", "text": text[:i] + text[i + chunk:], "dates": []}
                 budget -= 1
                 im, mo = rerun(cand)
-                nd = still_fails(pid, "termparse", cand, im, mo, want) if im is not None else None
+                nd = still_fails(pid, d["stream"], cand, im, mo, want) if im is not None else None
                 if nd:
                     best, text, cut = nd, cand["text"], True
                 else:
